@@ -14,8 +14,10 @@ import types
 
 
 class VLoop(asyncio.SelectorEventLoop):
-    def __init__(self, seed=None, shuffle=False, jitter=0.0, quantum=0.001):
+    def __init__(self, seed=None, shuffle=False, jitter=0.0, quantum=0.001, stable=False):
         super().__init__()
+        self._stable = stable
+        self._seq = 0
         self._vt = 0.0
         self._rng = random.Random(seed)
         self._shuffle = shuffle
@@ -32,6 +34,11 @@ class VLoop(asyncio.SelectorEventLoop):
         if self._jitter:
             when = when + round(self._rng.random() * self._jitter, 3)     # whole milliseconds
         when = round(when, 6)      # keep the virtual clock on a 1 us grid (no float drift over thousands of 0.1 s sleeps)
+        if self._stable:
+            # equal deadlines expire in the order the timers were started (what a real monotonic clock gives: the task that went to
+            # sleep first wakes first); without this the timer heap breaks ties arbitrarily
+            self._seq = (self._seq + 1) % 900
+            when += self._seq * 1e-9
         return super().call_at(when, callback, *args, context=context)
 
     def _run_once(self):
@@ -165,9 +172,9 @@ def reset_config():
         setattr(cfg.GeckoConfig, member, getattr(idle, member))
 
 
-def run_virtual(coro_fn, seed=None, shuffle=False, jitter=0.0, network=None):
+def run_virtual(coro_fn, seed=None, shuffle=False, jitter=0.0, network=None, stable=False):
     """Run `await coro_fn(loop)` on a fresh virtual loop with patched time; returns its result."""
-    loop = VLoop(seed=seed, shuffle=shuffle, jitter=jitter)
+    loop = VLoop(seed=seed, shuffle=shuffle, jitter=jitter, stable=stable)
     loop.network = network
     asyncio.set_event_loop(loop)
     reset_config()
